@@ -28,6 +28,7 @@ type Knobs struct {
 	Nulls    bool // inject items that must render nothing into every list (C13)
 	Comments bool // inject Comment items / end-of-item comments (C15)
 	Forms    bool // choose variadic vs …Func form (and function vs method form) per list construct (C14)
+	Clones   bool // now and then an expression is kept as a template: the statement used is a Clone of it, and a second Clone is extended later (C01/C20)
 	Damage   bool // damage one list of the program (C02)
 	DamageAt int  // which list (1-based, in construction order) to damage; 0 = pick 1..40 at random
 	// Wrap, if set, may replace an item by a wrapper around it (probes, C10/C07)
@@ -42,6 +43,8 @@ type Tr struct {
 	crnd    *rand.Rand // comments
 	frnd    *rand.Rand // forms
 	drnd    *rand.Rand // damage
+	clrnd   *rand.Rand // clones
+	decoys  []*jen.Statement
 	Stats   map[string]int
 	// Comments holds the text of every injected comment, in injection order.
 	Comments  []string
@@ -63,6 +66,7 @@ func NewTr(seed int64, k Knobs) *Tr {
 		crnd: rand.New(rand.NewSource(seedFor(seed, 3))),
 		frnd: rand.New(rand.NewSource(seedFor(seed, 4))),
 		drnd: rand.New(rand.NewSource(seedFor(seed, 5))),
+		clrnd: rand.New(rand.NewSource(seedFor(seed, 6))),
 	}
 	t.damageAt = -1
 	return t
@@ -541,7 +545,34 @@ var builtin1 = map[string]func(jen.Code) *jen.Statement{
 var builtin2 = map[string]func(a, b jen.Code) *jen.Statement{"complex": jen.Complex, "copy": jen.Copy, "delete": jen.Delete}
 var builtinN = map[string]string{"append": "Append", "min": "Min", "max": "Max", "make": "Make", "print": "Print", "println": "Println"}
 
+// expr translates an expression. With Knobs.Clones, now and then the translation is kept as a template the way a
+// generator keeps a common prefix: the statement handed on (and extended by the caller: .Dot, .Call, .Index …) is a
+// Clone of it, and a sibling Clone is extended with a token of its own after everything else was built (Finish).
+// Nothing appended to one clone may show in the other or in the output.
 func (t *Tr) expr(e ast.Expr) *jen.Statement {
+	s := t.expr0(e)
+	if t.knobs.Clones && s != nil && t.inDictKey == 0 && t.clrnd.Intn(10) == 0 {
+		used := s.Clone()
+		if t.clrnd.Intn(2) == 0 {
+			used = used.Clone() // a clone of a clone
+		}
+		sibling := s.Clone()
+		t.decoys = append(t.decoys, sibling)
+		t.hit("clone.template")
+		return used
+	}
+	return s
+}
+
+// Finish extends every sibling clone by a token of its own (after the whole tree was built and the clones that are
+// part of it were extended by their callers).
+func (t *Tr) Finish() {
+	for i, d := range t.decoys {
+		d.Id(fmt.Sprintf("decoy%dQ", i)).Call(jen.Lit(i))
+	}
+}
+
+func (t *Tr) expr0(e ast.Expr) *jen.Statement {
 	switch x := e.(type) {
 	case nil:
 		skip("nil expr")
